@@ -12,12 +12,12 @@ Require Import Model Spec Refine IgnoreFacts.
 (* generated code = specification, for grammars with ignore declarations as well
    (the rule call to _ignored after a literal is part of both semantics) *)
 Theorem C04_exec_refines_peg :
-  forall (g funs : list (list nat * expr)) (named : bool) (ignored : option nat)
+  forall (g funs : list (list nat * expr)) (ignored : option nat)
          (t : list nat) (rx : nat -> nat -> option nat),
     (forall r b, nth_error g r = Some ([], b) -> wf g ignored t rx [] b) ->
     (forall r, ignored = Some r -> exists es, nth_error g r = Some ([], Skip es)) ->
     forall n e sc E s, wf g ignored t rx sc e -> scope_of sc E -> sub E (locals s) ->
-      match peg g ignored t rx n E e (pos s), exec true g funs named ignored t rx n e s with
+      match peg g ignored t rx n E e (pos s), exec true g funs ignored t rx n e s with
       | Fuel, OutOfFuel => True
       | Raise, _ => True
       | Match v p', Done s' => status s' = true /\ result s' = v /\ pos s' = p' /\ sub E (locals s')
